@@ -14,6 +14,7 @@ import json
 from typing import Any
 from urllib.parse import parse_qsl
 
+from mc import c17_extra as extra
 from mc import engine
 from mc.choicetree import Alphabet, Divergence, Stats, draw_strategy, explore
 from mc.runner import Result, digest, jsonable
@@ -30,13 +31,20 @@ RULE = (
     "/ schema.examples (3.1) / x-example(s) (2.0) / schema-level examples on properties, in anyOf|oneOf|allOf branches, on items, "
     "with values over a small alphabet (0, 1, '', 'x', 'a b&c', objects, unsendable header strings); each document = one real "
     "engine run of the examples phase per fill-in choice path (default path + every single deviation of every generate_one call); "
-    "a run is non-trivial when the walker lists >=1 example; distinct = distinct (document, fill-in path)"
+    "a run is non-trivial when the walker lists >=1 example; distinct = distinct (document, fill-in path). "
+    "Review round 2 (families F8-F13, mc/c17_extra.py): the object carrying the examples written at the path-item level / behind a $ref "
+    "(parameters, request body) / overriding a shared parameter; two parameters with the same name in different locations; 3 and 4 "
+    "examples on a slot, three parameters, 4 parameter examples against 2+1 body examples in both media-type orders; falsy and empty "
+    "values (false, null, [], {}, '') and URL-significant parameter values ('a%20b', '50%', 'é?#', 'a;b=c'); Swagger 2.0 formData "
+    "x-example(s); example and examples on one object; an externalValue example next to value examples (both orders)"
 )
 BOUNDS = {
     "quick": {"parameters": 2, "media_types": 2, "examples_per_slot": 2, "fill_in_deviations": 1, "fill_in_chars": ["a", "0"],
-              "max_candidates_per_fill_in": 12, "specs": ["3.0", "2.0", "3.1 (schema.examples only)"]},
+              "max_candidates_per_fill_in": 12, "specs": ["3.0", "2.0", "3.1 (schema.examples only)"],
+              "round2": {"parameters": 3, "examples_per_slot": 4, "form_data_fields": 2}},
     "thorough": {"parameters": 2, "media_types": 2, "examples_per_slot": 2, "fill_in_deviations": 1, "fill_in_chars": ["a", "0", " ", "/"],
-                 "max_candidates_per_fill_in": 16, "specs": ["3.0", "2.0", "3.1"]},
+                 "max_candidates_per_fill_in": 16, "specs": ["3.0", "2.0", "3.1"],
+                 "round2": {"parameters": 3, "examples_per_slot": 4, "form_data_fields": 2}},
 }
 BUDGET_S = {"quick": 140, "thorough": 3000}
 CHUNK = 4
@@ -50,7 +58,11 @@ ASSUMPTIONS = [
     "fill-in draws (generate_one) are enumerated over the stated character alphabet with at most one non-default answer per engine run; "
     "several fill-ins deviating in the same run are not explored",
     "engine.phases.unit.WORKER_TIMEOUT (poll interval of the event queue, 0.1 s) is lowered to 5 ms: it only shortens the idle wait at the end of a phase",
-    "not walked: externalValue (network), parameter.content, formData parameters, response examples, null / array example values in string-only locations",
+    "not walked: externalValue (network), parameter.content, multipart formData, response examples, null / array example values in string-only locations",
+    "Swagger 2.0 formData parameters (urlencoded only) are walked by the supplement mc/c17_extra.py: every field is one property of the payload, "
+    "its x-example / x-examples.{n}.value must arrive under the field's name; the fields without an example are judged as fill-ins",
+    "externalValue: specs.openapi.examples.load_external_example is replaced by a stub that raises requests.ConnectionError (network unreachable, "
+    "no socket is ever opened); the externalValue example itself is not judged, its `value` siblings are",
     "an example counts as 'cannot be sent over HTTP' only for header/cookie values with CR, LF, NUL or non-latin-1 characters (judged by own code)",
 ]
 TECHNIQUE = (
@@ -64,7 +76,7 @@ LEVEL_TEXT = (
 )
 LEVEL_NOTE = (
     "Trusted: the walker oracles/examples_walker.py (own code), the in-process HTTP seam, the mini schema evaluator for fill-ins. "
-    "Not covered: placements outside the grammar (style-serialised parameters, multipart, externalValue), >1 simultaneous fill-in deviation."
+    "Not covered: placements outside the grammar (style-serialised parameters, multipart, the content of externalValue), >1 simultaneous fill-in deviation."
 )
 
 JSON = "application/json"
@@ -82,6 +94,11 @@ PARAM_PLACEMENTS_3X = {
 }
 PARAM_PLACEMENTS_31 = {"schema_examples1": 1, "schema_examples2": 2}
 PARAM_PLACEMENTS_20 = {"none": 0, "x-example": 1, "x-examples1": 1, "x-examples2": 2}
+# review round 2 (families F8-F13, enumerated in mc/c17_extra.py)
+PARAM_PLACEMENTS_EXTRA_3X = {"examples3": 3, "examples4": 4, "anyOf3": 3, "example_and_examples": 2, "external_first": 1, "external_last": 1}
+PARAM_PLACEMENTS_EXTRA_20 = {"x-examples3": 3, "x_both": 2}
+BODY_PLACEMENTS_EXTRA = {"examples3": 3, "example_and_examples": 2, "x_both": 2, "external_first": 1, "external_last": 1}
+EXTERNAL_URL = "http://verif.invalid/example"  # never fetched: see init_worker
 
 BODY_PLACEMENTS_3X = {
     "none": 0, "example": 1, "examples1": 1, "ref1": 1, "schema_example": 1, "prop1": 1, "prop1_req": 1, "items": 1, "items_prop": 1,
@@ -102,16 +119,23 @@ TEXT_PLACEMENTS = {"none": 0, "example": 1, "schema_example": 1, "examples2": 2}
 PVALS = {
     "i01": ("integer", 0, 1), "i10": ("integer", 1, 0), "s_amp": ("string", "a b&c", ""), "s_empty": ("string", "", "x"),
     "s_x": ("string", "x", "a b&c"), "s_int": ("string", 0, "x"),
+    "b_ft": ("boolean", False, True), "b_tf": ("boolean", True, False),
+    "s_pct": ("string", "a%20b", "50%"), "s_url": ("string", "é?#", "a;b=c"),
     "h_nl": ("string", "a\nb", "x"), "h_uni": ("string", "é€", "x"), "h_x_nl": ("string", "x", "a\nb"),
 }
-# whole-body values (v1, v2) and property-level values (p1, p2, p3)
+# third and fourth example value of a parameter (placements examples3 / examples4 / anyOf3 / x-examples3)
+PVALS_MORE = {"integer": [2, 3], "string": ["y", "z z"], "boolean": [True, False]}
+# whole-body values (v1, v2; whole3 = third value for examples3) and property-level values (p1, p2, p3)
 BVALS = {
-    "obj": {"whole": [{"k": 0}, {"k": 1}], "prop": [1, "x", "a b&c"], "ptype": "integer"},
-    "mixed": {"whole": [0, "a b&c"], "prop": [0, "", "x"], "ptype": "integer"},
-    "str": {"whole": ["", {"k": {"j": "a b&c"}}], "prop": ["a b&c", 0, 1], "ptype": "string"},
+    "obj": {"whole": [{"k": 0}, {"k": 1}], "prop": [1, "x", "a b&c"], "ptype": "integer", "whole3": {"k": 2}},
+    "mixed": {"whole": [0, "a b&c"], "prop": [0, "", "x"], "ptype": "integer", "whole3": 1},
+    "str": {"whole": ["", {"k": {"j": "a b&c"}}], "prop": ["a b&c", 0, 1], "ptype": "string", "whole3": "x"},
+    # falsy / empty values (review round 2)
+    "falsy": {"whole": [None, []], "prop": [False, None, []], "ptype": "boolean", "whole3": False},
+    "falsy2": {"whole": [{}, ""], "prop": [None, {}, ""], "ptype": "string", "whole3": 0},
 }
-FORM_VALS = {"whole": [{"k": 0}, {"k": "a b&c"}], "prop": [1, "x", "a b&c"], "ptype": "integer"}
-TEXT_VALS = {"whole": ["a b&c", "x"], "prop": [], "ptype": "string"}
+FORM_VALS = {"whole": [{"k": 0}, {"k": "a b&c"}], "prop": [1, "x", "a b&c"], "ptype": "integer", "whole3": {"k": 1}}
+TEXT_VALS = {"whole": ["a b&c", "x"], "prop": [], "ptype": "string", "whole3": "y"}
 
 PNAMES = {"query": "q", "header": "X-P", "path": "p", "cookie": "c"}
 
@@ -124,11 +148,17 @@ def param_object(spec: str, idx: int, p: dict, components: dict) -> dict:
     """Build one Parameter Object from its description {loc, required, placement, vals}."""
     loc, placement = p["loc"], p["placement"]
     typ, v1, v2 = PVALS[p["vals"]]
-    name = f"{PNAMES[loc]}{idx}"
+    name = p.get("name") or f"{PNAMES[loc]}{idx}"
+    v3, v4 = PVALS_MORE[typ]
     out: dict[str, Any] = {"name": name, "in": loc, "required": bool(p["required"]) or loc == "path"}
     if spec == "2.0":
         out["type"] = typ
-        if placement == "x-example":
+        if placement == "x-examples3":
+            out["x-examples"] = {"e1": {"value": v1}, "e2": {"value": v2}, "e3": {"value": v3}}
+        elif placement == "x_both":
+            out["x-example"] = v1
+            out["x-examples"] = {"e1": {"value": v2}}
+        elif placement == "x-example":
             out["x-example"] = v1
         elif placement == "x-examples1":
             out["x-examples"] = {"e1": {"value": v1}}
@@ -174,6 +204,19 @@ def param_object(spec: str, idx: int, p: dict, components: dict) -> dict:
     elif placement == "both":
         out["example"] = v1
         schema["example"] = v2
+    elif placement == "examples3":
+        out["examples"] = {"e1": {"value": v1}, "e2": {"value": v2}, "e3": {"value": v3}}
+    elif placement == "examples4":
+        out["examples"] = {"e1": {"value": v1}, "e2": {"value": v2}, "e3": {"value": v3}, "e4": {"value": v4}}
+    elif placement == "anyOf3":
+        schema = {"anyOf": [{"type": typ, "example": v1}, {"type": _other(typ), "example": v2}, {"type": typ, "example": v3}]}
+    elif placement == "example_and_examples":
+        out["example"] = v1
+        out["examples"] = {"e1": {"value": v2}}
+    elif placement == "external_first":
+        out["examples"] = {"e0": {"externalValue": EXTERNAL_URL}, "e1": {"value": v1}}
+    elif placement == "external_last":
+        out["examples"] = {"e1": {"value": v1}, "e0": {"externalValue": EXTERNAL_URL}}
     else:
         raise ValueError(placement)
     out["schema"] = schema
@@ -234,6 +277,23 @@ def body_media(spec: str, idx: int, b: dict, components: dict) -> dict:
     elif placement == "x_and_schema":
         media["schema"] = {**whole_schema, "example": w2}
         media["x-example"] = w1
+    elif placement == "examples3":
+        media["schema"] = whole_schema
+        media["examples"] = {"e1": {"value": w1}, "e2": {"value": w2}, "e3": {"value": vals["whole3"]}}
+    elif placement == "example_and_examples":
+        media["schema"] = whole_schema
+        media["example"] = w1
+        media["examples"] = {"e1": {"value": w2}}
+    elif placement == "x_both":
+        media["schema"] = whole_schema
+        media["x-example"] = w1
+        media["x-examples"] = {"e1": {"value": w2}}
+    elif placement == "external_first":
+        media["schema"] = whole_schema
+        media["examples"] = {"e0": {"externalValue": EXTERNAL_URL}, "e1": {"value": w1}}
+    elif placement == "external_last":
+        media["schema"] = whole_schema
+        media["examples"] = {"e1": {"value": w1}, "e0": {"externalValue": EXTERNAL_URL}}
     elif placement == "prop1":
         media["schema"] = {"type": "object", "properties": {"a": prop(pv[0])}}
     elif placement == "prop1_req":
@@ -291,31 +351,70 @@ def body_media(spec: str, idx: int, b: dict, components: dict) -> dict:
 
 def build(item: dict) -> dict:
     spec = item["spec"]
+    two = spec == "2.0"
     components: dict[str, Any] = {}
-    params = [param_object(spec, i + 1, p, components) for i, p in enumerate(item["params"])]
-    path = "/t" + "".join("/{%s}" % p["name"] for p in params if p["in"] == "path")
+    pref = "#/parameters/" if two else "#/components/parameters/"
+    op_params: list[dict] = []
+    shared_params: list[dict] = []  # written at the path-item level
+    named_params: dict[str, dict] = {}  # written under components.parameters (2.0: #/parameters) and referenced
+    path_names: list[str] = []
+    form = [{**f, "loc": "formData"} for f in item.get("form") or []]
+    for i, p in enumerate(list(item["params"]) + form):
+        obj = param_object(spec, i + 1, p, components)
+        if obj["in"] == "path":
+            path_names.append(obj["name"])
+        at = p.get("at", "op")
+        if at == "overriding":
+            # a shared parameter with the same (name, in) and another example: the operation-level one replaces it
+            shadow = {k: v for k, v in obj.items() if k not in ("example", "examples", "x-example", "x-examples")}
+            shadow["x-example" if two else "example"] = "shadowed" if PVALS[p["vals"]][0] == "string" else 9
+            shared_params.append(shadow)
+        if at in ("ref", "shared_ref"):
+            named_params[f"P{i + 1}"] = obj
+            obj = {"$ref": f"{pref}P{i + 1}"}
+        (shared_params if at in ("shared", "shared_ref") else op_params).append(obj)
+    path = "/t" + "".join("/{%s}" % name for name in path_names)
     op: dict[str, Any] = {"responses": {"200": {"description": "OK"}}}
     bodies = item["bodies"]
-    method = "post" if bodies else "get"
-    if spec == "2.0":
+    body_at = item.get("body_at", "inline")
+    method = "post" if bodies or form else "get"
+    if two:
         if bodies:
             media = body_media(spec, 1, bodies[0], components)
             bp = {"name": "body", "in": "body", "required": bool(item.get("body_required")), **media}
-            params = params + [bp]
+            if body_at == "shared":
+                shared_params.append(bp)
+            elif body_at == "ref":
+                named_params["B"] = bp
+                op_params.append({"$ref": f"{pref}B"})
+            else:
+                op_params.append(bp)
             op["consumes"] = [b["mt"] for b in bodies]
-        op["parameters"] = params
+        elif form:
+            op["consumes"] = [FORM]
+        op["parameters"] = op_params
         doc: dict[str, Any] = {"swagger": "2.0", "info": {"title": "t", "version": "1"}, "paths": {path: {method: op}}}
         if components.get("schemas"):
             doc["definitions"] = components["schemas"]
+        if named_params:
+            doc["parameters"] = named_params
     else:
-        op["parameters"] = params
+        op["parameters"] = op_params
         if bodies:
-            op["requestBody"] = {"required": bool(item.get("body_required")),
-                                 "content": {b["mt"]: body_media(spec, i + 1, b, components) for i, b in enumerate(bodies)}}
+            rb = {"required": bool(item.get("body_required")),
+                  "content": {b["mt"]: body_media(spec, i + 1, b, components) for i, b in enumerate(bodies)}}
+            if body_at == "ref":
+                components["requestBodies"] = {"B": rb}
+                rb = {"$ref": "#/components/requestBodies/B"}
+            op["requestBody"] = rb
         doc = {"openapi": "3.0.2" if spec == "3.0" else "3.1.0", "info": {"title": "t", "version": "1"}, "paths": {path: {method: op}}}
+        if named_params:
+            components["parameters"] = named_params
         comp = {k: v for k, v in components.items() if v}
         if comp:
             doc["components"] = comp
+    if shared_params:
+        doc["paths"][path]["parameters"] = shared_params
     if item.get("decoy"):
         decoy_param = {"name": "d", "in": "query", "required": True}
         decoy_param.update({"type": "integer"} if spec == "2.0" else {"schema": {"type": "integer"}})
@@ -336,7 +435,8 @@ def items(tier: str, seed: int) -> list[dict]:
     out: list[dict] = []
     seen: set[str] = set()
 
-    def add(family: str, spec: str, params: list[dict], bodies: list[dict], body_required: bool = False, decoy: bool = False) -> None:
+    def add(family: str, spec: str, params: list[dict], bodies: list[dict], body_required: bool = False, decoy: bool = False,
+            more: dict | None = None) -> None:
         # unsendable header values only make sense in headers; "" / "/" cannot be a path segment
         for p in params:
             typ, v1, v2 = PVALS[p["vals"]]
@@ -347,6 +447,7 @@ def items(tier: str, seed: int) -> list[dict]:
             if spec == "2.0" and p["loc"] == "cookie":
                 return
         item = {"family": family, "spec": spec, "params": params, "bodies": bodies, "body_required": body_required, "decoy": decoy}
+        item.update(more or {})  # review round 2: form / body_at (absent in the items of F1-F7)
         key = digest(item)
         if key not in seen:
             seen.add(key)
@@ -464,6 +565,11 @@ def items(tier: str, seed: int) -> list[dict]:
         for pl in (["none", "x-example", "x-examples2"] if spec == "2.0" else ["none", "example", "examples2", "anyOf2"]):
             add("decoy", spec, [_p("query", pl, "i10", True)], [], decoy=True)
         add("decoy", spec, [], [_b(JSON, "prop1_req", "obj")], True, decoy=True)
+
+    # F8-F13 (review round 2): indirection, same name in two locations, 3-4 examples / three parameters, falsy and URL-significant
+    # values, Swagger 2.0 formData, example+examples / externalValue siblings - enumerated in mc/c17_extra.py
+    for it in extra.extra_items(tier):
+        add(it["family"], it["spec"], it["params"], it["bodies"], it["body_required"], more=it["extra"])
     return out
 
 
@@ -554,11 +660,24 @@ def e1_generate_one(strategy: Any) -> Any:
     return payload
 
 
+_EXTERNAL_FETCHES: list[str] = []
+
+
+def no_network_external_example(url: str) -> bytes:
+    """Replacement of specs.openapi.examples.load_external_example: the network is unreachable (never a socket)."""
+    import requests
+
+    _EXTERNAL_FETCHES.append(url)
+    raise requests.ConnectionError(f"no network in this check: {url}")
+
+
 def init_worker() -> None:
     import schemathesis.engine.phases.unit as unit
+    import schemathesis.specs.openapi.examples as oexamples
     from schemathesis.generation.hypothesis import examples as hexamples
 
     hexamples.generate_one = e1_generate_one
+    oexamples.load_external_example = no_network_external_example
     unit.WORKER_TIMEOUT = 0.005
 
 
@@ -583,6 +702,8 @@ def execute(doc: dict, plan: Plan) -> Any:
 def value_class(v: Any) -> str:
     if isinstance(v, bool):
         return "bool"
+    if v is None:
+        return "null"
     if isinstance(v, int):
         return "int0" if v == 0 else "int"
     if isinstance(v, str):
@@ -737,7 +858,7 @@ def recovered(req: dict, entry: dict) -> bool:
 
 def judge(res: Result, item: dict, doc: dict, entries: list[dict], run: Any, plan: Plan, fill: dict) -> None:
     spec = item["spec"]
-    facts = {"spec": spec}
+    doc_facts = {"spec": spec}
     detail_base = {"document": doc, "fill_in_path": fill, "events": [engine.event_summary(e) for e in run.events if type(e).__name__ in
                                                                       ("ScenarioFinished", "NonFatalError", "FatalError")]}
     crash = None
@@ -763,6 +884,14 @@ def judge(res: Result, item: dict, doc: dict, entries: list[dict], run: Any, pla
         detail = {**detail_base, "operation": op_label, "requests": [r["_exchange"].as_json() for r in reqs][:6],
                   "errors": [f"{type(e.value).__name__}: {str(e.value)[:300]}" for e in errors], "statuses": statuses}
         res.traces += 1
+        declared = walker.declared_inputs(doc, path, method)
+        if declared["body"] is None:
+            form_body = extra.formdata_body(doc, path, method)  # Swagger 2.0 formData parameters = properties of the payload
+            if form_body is not None:
+                declared = {**declared, "body": form_body}
+        facts = dict(doc_facts)
+        if extra.same_name_in_two_locations(declared["parameters"]):
+            facts["same_name_in_two_locations"] = True  # only written when true: the signatures of all other documents are unchanged
         if not mine:
             res.count("operations_without_examples")
             if reqs:
@@ -787,6 +916,9 @@ def judge(res: Result, item: dict, doc: dict, entries: list[dict], run: Any, pla
                     res.outcomes.add("sent")
                     res.count("entries_recovered")
                     res.count("recovered:" + src)
+                    res.count("recovered_value:" + value_class(e["value"]))
+                    if e["kind"] == "param" and isinstance(e["value"], str) and any(c in e["value"] for c in "%?#;"):
+                        res.count("recovered_url_significant:" + where)
                     if e["kind"] == "body":
                         res.count("recovered_media_type_examples")
                         if e["ptr"]:
@@ -804,7 +936,6 @@ def judge(res: Result, item: dict, doc: dict, entries: list[dict], run: Any, pla
                        "value": value_class(e["value"]), "errors": error_names, "crash": crash, "unsendable_sibling": unsendable_here}
                 res.violation(sig, {**detail, "entry": e})
         # every request: required inputs present, fill-ins conform
-        declared = walker.declared_inputs(doc, path, method)
         for req in reqs:
             judge_request(res, facts, detail, doc, spec, declared, mine, req)
     if entries:
@@ -920,12 +1051,23 @@ def check_constructed(res: Result, facts: dict, rdetail: dict, doc: dict, spec: 
 def check_item(item: dict, tier: str) -> Result:
     res = Result()
     doc = build(item)
-    entries = walker.walk(doc)
+    entries = walker.walk(doc) + extra.formdata_entries(doc)
     per_slot: dict[str, int] = {}
     for e in entries:
-        key = json.dumps([e["kind"], e.get("in"), e.get("name"), e.get("media_type")])
+        key = json.dumps([e["kind"], e.get("in"), e.get("name"), e.get("media_type"), e["ptr"] if e["source"].startswith("formData") else None])
         per_slot[key] = per_slot.get(key, 0) + 1
     counts = sorted(per_slot.values())
+    if counts and counts[-1] >= 3:
+        res.count("docs_with_3_or_more_examples_on_a_slot")
+    if len(item["params"]) >= 3:
+        res.count("docs_with_three_parameters")
+    for p in list(item["params"]) + list(item.get("form") or []):
+        if p.get("at", "op") != "op":
+            res.count("docs_parameter_written:" + p["at"])
+    if item.get("body_at", "inline") != "inline":
+        res.count("docs_body_written:" + item["body_at"])
+    if item.get("form"):
+        res.count("docs_with_form_data")
     if len(counts) >= 2 and counts[-1] >= 2 and 1 in counts:
         res.count("docs_with_2_and_1_examples")
     if any(e["ptr"] for e in entries):
@@ -937,9 +1079,12 @@ def check_item(item: dict, tier: str) -> Result:
     res.count("docs:" + item["family"] + ":" + item["spec"])
 
     plan = Plan(None, tier)
+    del _EXTERNAL_FETCHES[:]
     run = execute(doc, plan)
     res.evaluations += 1
     account(res, plan)
+    if _EXTERNAL_FETCHES:
+        res.count("external_value_fetches_cut_off", len(_EXTERNAL_FETCHES))
     if plan.unresolved:
         # a fill-in strategy produced no value within the explored part of its tree and the tree was not exhausted:
         # what the real generate_one would do is not decided by E1 here -> the document is not judged (and said so)
@@ -1001,12 +1146,29 @@ def vacuity(total: Result, tier: str) -> list[str]:
         "unsendable_reported": "no unsendable example was seen being reported",
         "operations_without_examples": "no operation without examples was judged",
     }
+    need.update({
+        "docs_with_3_or_more_examples_on_a_slot": "no document with >=3 examples on one slot",
+        "docs_with_three_parameters": "no document with three parameters",
+        "docs_parameter_written:shared": "no path-item level (shared) parameter",
+        "docs_parameter_written:ref": "no $ref'd Parameter Object",
+        "docs_parameter_written:overriding": "no operation-level parameter overriding a shared one",
+        "docs_body_written:ref": "no $ref'd request body / body parameter",
+        "docs_with_form_data": "no Swagger 2.0 formData document",
+        "recovered_value:null": "no null example was recovered",
+        "recovered_value:bool": "no boolean example was recovered",
+        "recovered_value:array": "no array example was recovered",
+        "recovered_value:str_empty": "no empty-string example was recovered",
+        "recovered_url_significant:path": "no path example with URL-significant characters was recovered",
+        "recovered_url_significant:query": "no query example with URL-significant characters was recovered",
+        "external_value_fetches_cut_off": "no externalValue example was met (the no-network stub was never called)",
+    })
     for key, msg in need.items():
         if not c.get(key):
             out.append(msg)
     for src in ("parameter.example", "parameter.examples.value", "parameter.examples.$ref", "media_type.example", "media_type.examples.value",
                 "media_type.examples.$ref", "schema.example", "schema.property.example", "schema.items.property.example", "schema.anyOf.example",
-                "schema.oneOf.example", "parameter.x-example", "parameter.x-examples.value", "body.x-example", "schema.examples"):
+                "schema.oneOf.example", "parameter.x-example", "parameter.x-examples.value", "body.x-example", "schema.examples",
+                "formData.x-example", "formData.x-examples.value"):
         if not c.get("recovered:" + src):
             out.append(f"no example given through {src} was recovered")
     if "skipped" not in total.outcomes or "sent" not in total.outcomes:
